@@ -63,7 +63,7 @@ fn replay_value(seed: u64, run: u64, w: &GroupWorld, e: &GExec, v: &Violation, o
 pub fn check(args: &Args) -> i32 {
     let t0 = Instant::now();
     let thorough = args.tier == "thorough";
-    let n = args.runs.unwrap_or(if thorough { 40_000 } else { 4_000 });
+    let n = args.runs.unwrap_or(if thorough { 80_000 } else { 4_000 });
     let seed = args.seed;
     let outs = parallel_map(n, args.workers, move |i| one_run(seed, i, thorough));
     let mut stats = Stats::default();
